@@ -12,5 +12,6 @@ CONSTANTS
   MaxResp = 3
   MaxCalls = 3
   Families <- AllFamilies
+  SizesForAll = FALSE
   Level = "lite"
 INVARIANT Props
